@@ -108,6 +108,21 @@ theorem join_deadlock_free (s : St) (h : machine.Reachable s) (hbusy : s.jpc ≠
   unfold canProgress
   cases hj : s.jpc <;> cases ht : s.tpc <;> simp_all [JSusp, JPublishing, TBefore]
 
+/-- **a target in its exit path waits only for a joiner that is committed**: when the exiting unit finds the JOIN bit
+already set and waits for `p_link`, the joiner has won the hand-shake and is either between its `fetch_or` and the store of
+the link (it cannot turn back: no step of the joiner leaves that segment except the store) or has published it already —
+so the wait ends and the unit does terminate once its function has returned -/
+theorem exit_waits_only_for_committed_joiner (s : St) (h : machine.Reachable s) (hs : s.tpc = .spin) :
+    s.link = true ∨ s.jpc = .blk ∨ s.jpc = .lnk ∨ s.jpc = .xlnk := by
+  have hi := inv_reachable s h
+  have hw := hi.spinWon hs
+  have hr := hi.tBeforeResumes (by simp [TBefore, hs])
+  have hn := hi.notStarted
+  have hp := hi.pastWon
+  have ht := hi.termIff
+  have hsus := hi.suspended
+  cases hj : s.jpc <;> simp_all [JSusp]
+
 /-- non-vacuity: the three orders of the two fetch_or's and the link store are all accepted -/
 example : (machine.run init [.jCall true, .jLoadState false, .jFetchOr false, .jStoreBlocked, .tExit, .tLoadLink false,
       .tFetchOr true, .tLoadLink false, .jStoreLink, .tLoadLink true, .tResume, .jLoadState false, .tStoreTerminated,
